@@ -887,6 +887,8 @@ class XPathToken(Token[ta.XPathTokenType]):
         elif isinstance(obj, bool):
             return 'true' if obj else 'false'
         elif isinstance(obj, Decimal):
+            if not obj:
+                return '0'  # xs:decimal has no negative zero
             value = format(obj, 'f')
             if '.' in value:
                 return value.rstrip('0').rstrip('.')
